@@ -421,6 +421,11 @@ where
             (true, Some(snapshot_path)) => {
                 vfs::remove_file(snapshot_path).await?;
             }
+            // No snapshot means the log was empty before, so
+            // restoring the previous state is clearing the log
+            (false, None) => {
+                rollback_completed = self.clear().await.is_ok();
+            }
             _ => {}
         }
 
